@@ -48,7 +48,7 @@ impl Encode for ScriptEncoder {
                     _ => {}
                 }
             }
-            if msg.ends_with(":fail") {
+            if msg.ends_with(":fail") || self.yield_mode == 9 {
                 // what a FAILED record leaves on disk is BufWriter's business (Model/BufW.v models write_all)
                 w.write_all(c)?;
             } else {
@@ -433,7 +433,9 @@ fn run_full_disk(c: &[Val]) -> Val {
     let path = prepare_path(dir.path(), &c[2]);
     let recs: Vec<Vec<Vec<u8>>> = c[5].l().iter().map(chunks_of).collect();
     let table = Arc::new(vec![recs.clone()]);
-    let app = build(&path, a, Box::new(ScriptEncoder { table, yield_mode: 0 }));
+    // (yield_mode 9: one write_all per chunk - what a failing call leaves in the BufWriter depends on the size of the
+    //  writes, and Model/BufW.v is run on these histories chunk for chunk)
+    let app = build(&path, a, Box::new(ScriptEncoder { table, yield_mode: 9 }));
     let size = std::fs::metadata(&path).map(|m| m.len()).unwrap_or(0);
     let mut oks = vec![];
     {
